@@ -40,6 +40,9 @@ ANCHORS = [
     ("pyanalyze/format_strings.py", "_parse_children"),
     ("pyanalyze/format_strings.py", "_parse_replacement_field"),
     ("pyanalyze/implementation.py", "_str_format_impl"),
+    ("pyanalyze/name_check_visitor.py", "NameCheckVisitor._visit_binop_internal"),
+    ("pyanalyze/name_check_visitor.py", "NameCheckVisitor.visit_BinOp"),
+    ("pyanalyze/name_check_visitor.py", "NameCheckVisitor.visit_AugAssign"),
 ]
 RULE = (
     "% formatting: all templates over a 12-symbol alphabet (% ( ) a d c s x . * 5 b) up to a length bound x a fixed "
@@ -153,6 +156,82 @@ def scan_caches(repo):
     return sorted(caches), sorted(mutables), sorted(set(stores))
 
 
+ROUTE_TARGETS = ("check_string_format", "parse_format_string", "from_pattern", "from_bytes_pattern")
+
+
+def scan_routes(repo):
+    """Every way into the format checkers, read off the live source (tests excluded):
+    (routes) call sites of check_string_format / parse_format_string / PercentFormatString.from_*pattern
+             (`callee<-file:enclosing function`), callers of the function that calls check_string_format
+             (one level up), and `impl=_str_format_impl` registrations (`_str_format_impl<-impl@callable`);
+    (guards) the `if` conditions under which check_string_format is reached."""
+    import ast
+    routes, guards = [], []
+    for fn in ("name_check_visitor.py", "implementation.py", "format_strings.py"):
+        stem = fn[:-3]
+        tree = ast.parse(open(os.path.join(repo, "pyanalyze", fn)).read())
+        enclosing = []   # functions containing a check_string_format call
+
+        def visit(node, qual, ifs):
+            for ch in ast.iter_child_nodes(node):
+                q, i2 = qual, ifs
+                if isinstance(ch, (ast.FunctionDef, ast.AsyncFunctionDef, ast.ClassDef)):
+                    q, i2 = (qual + "." if qual else "") + ch.name, []
+                elif isinstance(ch, ast.If):
+                    # children of the body are under the test
+                    for sub in ch.body:
+                        visit_stmt(sub, qual, ifs + [ast.unparse(ch.test)])
+                    for sub in ch.orelse:
+                        visit_stmt(sub, qual, ifs + ["not (%s)" % ast.unparse(ch.test)])
+                    visit_expr(ch.test, qual, ifs)
+                    continue
+                visit_expr_node(ch, q, i2)
+                visit(ch, q, i2)
+
+        def visit_stmt(node, qual, ifs):
+            visit_expr_node(node, qual, ifs)
+            if isinstance(node, ast.If):
+                for sub in node.body:
+                    visit_stmt(sub, qual, ifs + [ast.unparse(node.test)])
+                for sub in node.orelse:
+                    visit_stmt(sub, qual, ifs + ["not (%s)" % ast.unparse(node.test)])
+                visit_expr(node.test, qual, ifs)
+            else:
+                visit(node, qual, ifs)
+
+        def visit_expr(node, qual, ifs):
+            visit_expr_node(node, qual, ifs)
+            visit(node, qual, ifs)
+
+        def visit_expr_node(ch, qual, ifs):
+            if isinstance(ch, ast.Call):
+                name = _dotted(ch)
+                last = name.split(".")[-1]
+                if last in ROUTE_TARGETS:
+                    routes.append("%s<-%s:%s" % (last, stem, qual or "<module>"))
+                    if last == "check_string_format":
+                        enclosing.append(qual.split(".")[-1])
+                        guards.append("%s:%s: %s" % (stem, qual, " && ".join(ifs) or "True"))
+                for kw in ch.keywords:
+                    if kw.arg == "impl" and isinstance(kw.value, ast.Name) and kw.value.id == "_str_format_impl":
+                        cal = [k for k in ch.keywords if k.arg == "callable"]
+                        routes.append("_str_format_impl<-impl@%s" % (ast.unparse(cal[0].value) if cal else "?"))
+
+        visit(tree, "", [])
+        # one level up: who calls the function(s) that reach check_string_format
+        if enclosing:
+            def callers(node, qual):
+                for ch in ast.iter_child_nodes(node):
+                    q = qual
+                    if isinstance(ch, (ast.FunctionDef, ast.AsyncFunctionDef, ast.ClassDef)):
+                        q = (qual + "." if qual else "") + ch.name
+                    if isinstance(ch, ast.Call) and _dotted(ch).split(".")[-1] in enclosing:
+                        routes.append("%s<-%s:%s" % (_dotted(ch).split(".")[-1], stem, qual or "<module>"))
+                    callers(ch, q)
+            callers(tree, "")
+    return sorted(routes), sorted(guards)
+
+
 def _lean_strs(xs):
     return "[" + ", ".join(json.dumps(x) for x in xs) + "]"
 
@@ -174,6 +253,19 @@ def translate(ctx):
         "def liveSelfStores : List String := %s\n\n"
         "end Pya.C17\n" % (_lean_strs(caches), _lean_strs(mutables), _lean_strs(stores)))
     lean.write_if_changed(os.path.join(lean.LEAN, "PyaModel", "Generated", "FormatCaches.lean"), text)
+    routes, guards = scan_routes(repo)
+    ctx.extra["route_scan"] = {"routes": routes, "guards": guards}
+    text = (
+        "/-! Regenerated on every run by `translate` in harness/props/c17.py from the live name_check_visitor.py,\n"
+        "implementation.py and format_strings.py: every entry route into the format checkers. DO NOT EDIT. -/\n"
+        "namespace Pya.C17\n\n"
+        "/-- `callee<-file:enclosing function` for every call site (and the callers one level up);\n"
+        "`_str_format_impl<-impl@callable` for every registration of the `str.format` implementation -/\n"
+        "def liveRoutes : List String := %s\n\n"
+        "/-- the conditions under which `check_string_format` is reached -/\n"
+        "def liveRouteGuards : List String := %s\n\n"
+        "end Pya.C17\n" % (_lean_strs(routes), _lean_strs(guards)))
+    lean.write_if_changed(os.path.join(lean.LEAN, "PyaModel", "Generated", "FormatRoutes.lean"), text)
 
 
 # ---------------------------------------------------------------- argument universe
